@@ -312,6 +312,10 @@ func genHostile(h *H) {
 			if h.rng.Intn(5) == 0 {
 				b = b[:h.rng.Intn(len(b)+1)]
 			}
+			if h.rng.Intn(3) == 0 {
+				b = []byte(mutateFrameWords(h.rng, string(b)))
+				mut = "frame-words+" + mut
+			}
 			input = b
 			mut = "armored+" + mut
 		}
@@ -413,4 +417,34 @@ func init() {
 		rule: "cases: byte strings derived from genuine messages of all seven mode/version combinations by 1-3 stacked structure-aware mutations at the MessagePack-tree level (type changes, list-length changes, nested header edits with re-encoding, truncations, splices, trailing garbage), optionally armored and then mutated at the text level; length-field bombs (tiny inputs announcing 4 GiB objects at every nesting position), long runs of single characters around the 8192-byte frame limit, a 200,000-character block. Each input is given to ALL 14 receive-side entry points (Open, NewDecryptStream over a one-byte reader, Verify, VerifyDetached, SigncryptOpen, the four Dearmor62* forms, Armor62Open, IsSaltpackBinarySlice, IsSaltpackArmoredPrefix, ClassifyStream, ClassifyEncryptedStreamAndMakeDecoder) with a keyring/resolver drawn from 840 misbehaviour combinations (lookups returning nil, -1, out-of-range or arbitrary indices and keys; key imports returning nil; key objects whose Unbox returns nothing, wrong lengths or errors; signing keys that accept everything; resolvers returning errors, wrong counts, nil or wrong keys), under recover, a 20 s deadline and an allocation budget of 48 MiB + 200 bytes per input byte. An evaluation is one input x 14 entry points.",
 		gen:  genHostile,
 	}
+}
+
+// mutateFrameWords deletes, duplicates or inserts a word in the header or the footer sentence
+func mutateFrameWords(r *SplitMix, txt string) string {
+	parts := strings.SplitN(txt, ".", 4)
+	if len(parts) < 3 {
+		return txt
+	}
+	k := []int{0, 2}[r.Intn(2)]
+	ws := strings.Fields(parts[k])
+	if len(ws) == 0 {
+		return txt
+	}
+	for e := 1 + r.Intn(2); e > 0 && len(ws) > 0; e-- {
+		p := r.Intn(len(ws))
+		switch r.Intn(3) {
+		case 0:
+			ws = append(ws[:p], ws[p+1:]...)
+		case 1:
+			ws = append(ws[:p], append([]string{ws[p]}, ws[p:]...)...)
+		default:
+			ws = append(ws[:p], append([]string{[]string{"SALTPACK", "MESSAGE", "X", "BEGIN", "END"}[r.Intn(5)]}, ws[p:]...)...)
+		}
+	}
+	lead := ""
+	if k == 2 {
+		lead = " "
+	}
+	parts[k] = lead + strings.Join(ws, " ")
+	return strings.Join(parts, ".")
 }
